@@ -58,7 +58,7 @@ func (c *Ctx) guardSuccess(f *Func, name string, safe map[Edge]bool, targets []S
 		c.Bad(inst, targets[0].Pos(), msg+" (path "+g.describePath(path)+")")
 		return
 	}
-	c.add(Result{Instance: inst, Verdict: Discharged, Sites: sitePositions(targets), Detail: "unreachable unless " + name, Witnesses: f.WitEdges(safe)})
+	c.add(Result{Instance: inst, Verdict: Discharged, Sites: sitePositions(targets), Detail: "unreachable unless " + name, Witnesses: f.WitEdges(necessaryEdges(g, g.Entry(), safe, targets, Cut{}))})
 }
 
 func c14a(c *Ctx) {
@@ -361,23 +361,7 @@ func c14b(c *Ctx) {
 	isZero := func(e ast.Expr) bool { v, ok := constInt(info, e); return ok && v == 0 }
 	c.guardSuccess(f, "old size >= 0", g.EdgesImplying(func(a Atom) bool {
 		rel, ok := cmpRel(a, isOld, isZero)
-		if ok && rel&relLT == 0 {
-			return true
-		}
-		// false edge of the compound `err != nil || oldSize < 0 || ...`
-		if !a.Val {
-			found := false
-			ast.Inspect(a.E, func(n ast.Node) bool {
-				if e, isE := n.(ast.Expr); isE {
-					if r2, ok2 := cmpRel(Atom{e, true}, isOld, isZero); ok2 && r2 == relLT {
-						found = true
-					}
-				}
-				return true
-			})
-			return found
-		}
-		return false
+		return ok && rel&relLT == 0
 	}), upd, "a negative old size can reach the update")
 	// verifiersForOrigin: built from the configured verifiers of that origin
 	if vf := c.Fn("witness.(*Witness).verifiersForOrigin"); vf != nil {
